@@ -191,7 +191,9 @@ Definition next_token (s0 : lx) : tok * lx * list lwarn :=
         end
       else if ch =? 58 then
         let s1 := next_char s in
-        (set_token T_FMT (if peek_is is_symch 0 s1 then sym_len (rest s1) else 0%nat) s1, [])
+        let n := if peek_is is_symch 0 s1 then sym_len (rest s1) else 0%nat in
+        (* the value is the name after the colon, the location is the colon's *)
+        (mktok T_FMT (firstn n (rest s1)) (line s) (col s) (pos s), adv n s1, [])
       else (set_token (single ch) 1 s, [])
   end.
 
